@@ -3,6 +3,21 @@
 import json, subprocess
 
 CLAIMED = {
+ "C02": dict(
+   technique="bounded explicit-state model checking: exhaustive enumeration of constructor/accessor lattices of the real API against an i128 reference model and a canonical-form predicate",
+   text="Every constructor (from_parts over century anchors x the whole u64 axis of century multiples, from_total_nanoseconds over the duration lattice plus i128 extremes, from_truncated_nanoseconds, n*Unit / Unit*n / n.unit() over the i64 factor lattice x 9 units, compose over the boundary-field product (3 x 12^7 in the thorough tier), std conversions) is executed on the real code and the (centuries, nanoseconds) read back is compared with the clamped i128 count and the canonical-form predicate; the accessors total_nanoseconds / try_truncated_nanoseconds / truncated_nanoseconds are compared with the count on the whole lattice.",
+   note="Trusted: to_parts() returns the stored fields. Known finding D1 (total_nanoseconds below -1 century, pinned by tests/duration.rs:378) matched by exact defect model.",
+   ref="DESIGN.md §4 C02"),
+ "C03": dict(
+   technique="bounded explicit-state model checking: exhaustive enumeration of all ordered pairs (and all triples of a sub-lattice) of the duration lattice through the real comparison operators, judged against the order/equality of the i128 counts",
+   text="All ordered pairs of the duration lattice go through == != < <= > >= cmp partial_cmp min max and a+b>a; all triples of a 50-value zero-crossing/adjacent-century sub-lattice through the transitivity checks; sort from four permutations; lattice x 9 units for the Unit comparisons. x == -x within one century is a counted don't-care (documented).",
+   note="Trusted: from_parts/to_parts (C02). Equality between exact negations below one century is not judged (the statement allows it).",
+   ref="DESIGN.md §4 C03"),
+ "C14": dict(
+   technique="bounded explicit-state model checking: exhaustive enumeration of duration lattice x step lattice (both signs) and epoch lattice x steps x 9 scales through the real floor/ceil/round/approx, plus stateright BFS over chains of these operations, against a div_euclid reference model",
+   text="Every (duration, step) pair of the lattices (steps 1 ns .. centuries .. MAX of both signs, and 0) and every (scale, count within +-100 centuries, step) triple is run through the real floor/ceil/round (and approx) and compared with the div_euclid model on the i128 count, including the side conditions floor <= d < ceil; a stateright BFS chains the operations from non-initial states and checks idempotence.",
+   note="Trusted: from_parts/to_parts (C02). Where the true floor is below the range (ceil/round) the statement is ambiguous: counted don't-care; when the true ceil is above the range both readings of round are accepted. Known finding D1 via exact defect model.",
+   ref="DESIGN.md §4 C14"),
  "C01": dict(
    technique="bounded explicit-state model checking of the real operators: exhaustive enumeration of lattice products (all ordered pairs of the duration lattice, lattice x i64 factor lattice, lattice x units) plus stateright BFS over operation sequences, each step co-simulated with an i128 reference model",
    text="Every ordered pair of the duration lattice (century anchors incl. both bounds, dense windows round 0, +-1..3 centuries, MIN, MAX and the i64 limits) is run through + - += -=, every lattice x factor pair through * / (both operand orders), every lattice x unit pair through the Unit forms, and a stateright BFS explores all operation sequences up to depth 3 (quick) / 4 (thorough) from non-initial states; each real result is compared with clamp(i128 op). Exhaustive over the stated finite space, not a proof for all 2^160 pairs.",
